@@ -111,9 +111,11 @@ impl super::Bundle {
         // All other data except the UTXO and proprietary fields in the input should be
         // cleared from the PSBT. The UTXO should be kept to allow Transaction Extractors
         // to verify the final network serialized transaction.
+        //
+        // The required lock times are kept: they are not spend data but part of the
+        // transaction's effects (the Transaction Extractor derives `nLockTime` from them),
+        // and the signatures already commit to that lock time.
         for input in &mut self.inputs {
-            input.required_time_lock_time = None;
-            input.required_height_lock_time = None;
             input.redeem_script = None;
             input.partial_signatures.clear();
             input.bip32_derivation.clear();
